@@ -17,6 +17,7 @@ package cabf_br
 import (
 	"fmt"
 	"net/url"
+	"sort"
 	"strings"
 
 	"github.com/zmap/zcrypto/x509"
@@ -212,7 +213,15 @@ func (l *torServiceDescHashInvalid) Execute(c *x509.Certificate) *lint.LintResul
 	// descriptorMap.
 	// See also https://github.com/cabforum/documents/issues/190
 	if util.IsEV(c.PolicyIdentifiers) {
-		for eTLDPlusOne, subjDomain := range onionETLDPlusOneMap {
+		// visit the names in sorted order so that the name reported does not depend
+		// on map iteration order when several lack a descriptor
+		eTLDPlusOnes := make([]string, 0, len(onionETLDPlusOneMap))
+		for eTLDPlusOne := range onionETLDPlusOneMap {
+			eTLDPlusOnes = append(eTLDPlusOnes, eTLDPlusOne)
+		}
+		sort.Strings(eTLDPlusOnes)
+		for _, eTLDPlusOne := range eTLDPlusOnes {
+			subjDomain := onionETLDPlusOneMap[eTLDPlusOne]
 			if _, found := descriptorMap[eTLDPlusOne]; !found {
 				return failResult(
 					"%s subject domain name %q does not have a corresponding "+
